@@ -471,4 +471,34 @@ mod verif_c13 {
         }
         kani::cover!(true);
     }
+
+    // long numeric keys (conjure-serde writes double keys in plain decimal, 128-bit keys have up to 40 characters):
+    // every key the target type can parse must be handed over parsed, whatever its length
+    #[kani::proof]
+    #[kani::stub(core::fmt::write, nofmt_write)]
+    #[kani::unwind(24)]
+    fn key_long_integer_literals() {
+        let k = KeyDeserializer(Any(Inner::String("100000000000000000001".to_string())));
+        assert!(u128::deserialize(k).unwrap() == 100000000000000000001u128);
+        kani::cover!(true);
+    }
+
+    // every 21-digit decimal string (longer than any 64-bit spelling) read as a u128 key gives its numeric value
+    #[kani::proof]
+    #[kani::stub(core::fmt::write, nofmt_write)]
+    #[kani::unwind(24)]
+    fn key_u128_from_21_digit_strings() {
+        let d: [u8; 21] = kani::any();
+        let mut want: u128 = 0;
+        let mut i = 0;
+        while i < 21 {
+            kani::assume(d[i] >= b'0' && d[i] <= b'9');
+            want = want * 10 + (d[i] - b'0') as u128;
+            i += 1;
+        }
+        let s = unsafe { std::str::from_utf8_unchecked(&d) };
+        let k = KeyDeserializer(Any(Inner::String(s.to_string())));
+        assert!(u128::deserialize(k).unwrap() == want);
+        kani::cover!(d[0] == b'9');
+    }
 }
